@@ -454,10 +454,11 @@ impl TryFrom<&str> for Rule {
     type Error = error::Token;
 
     fn try_from(value: &str) -> Result<Self, Self::Error> {
-        Ok(biscuit_parser::parser::rule(value)
+        let (_, rule) = biscuit_parser::parser::rule(value)
             .finish()
-            .map(|(_, o)| o.into())
-            .map_err(biscuit_parser::error::LanguageError::from)?)
+            .map_err(biscuit_parser::error::LanguageError::from)?;
+        super::scope::check_parsed_scopes([&rule])?;
+        Ok(rule.into())
     }
 }
 
@@ -465,9 +466,10 @@ impl FromStr for Rule {
     type Err = error::Token;
 
     fn from_str(s: &str) -> Result<Self, Self::Err> {
-        Ok(biscuit_parser::parser::rule(s)
+        let (_, rule) = biscuit_parser::parser::rule(s)
             .finish()
-            .map(|(_, o)| o.into())
-            .map_err(biscuit_parser::error::LanguageError::from)?)
+            .map_err(biscuit_parser::error::LanguageError::from)?;
+        super::scope::check_parsed_scopes([&rule])?;
+        Ok(rule.into())
     }
 }
